@@ -42,6 +42,22 @@ CHECKS = {
    text="Two runs of the real calculate()/pbc_dist_coordinate related by the symmetry: rigid translation (Distance, Distancevel, Dihedral, Puckering), image shift by a symbolic integer number of boxes (pbc, Distance, Distancevel off ties), velocity reversal (incl. through the real EngineBase.calculate_order with vel_rev), 3- vs 9-component box, |pbc(d)| <= L/2, system arrays unmodified. One measure-zero known finding (half-box ties); one defect repaired (fix: 4bbae1c). Rotation invariance NOT decided (solvers unknown), periodic Dihedral/Puckering not covered.",
    note="Floats as reals; sqrt/rint/arctan2 uninterpreted with their defining facts; image-shift clauses use box lengths in {1,2,4}.",
    design="5/C20"),
+ "C03": dict(level="other", technique="contract-based verification of the scheduler state machine: representation invariant + per-operation postconditions checked on the REAL REPEX_state methods by path-complete symbolic execution (symnp) from every abstract state of a shape, using only the contract of prob (C02); z3 discharges the fractional-weight identities",
+   text="The invariant (busy set == ensembles of in-flight jobs, disjoint path sets, every in-flight path in its ensemble's slot with non-zero weight, live paths distinct, idle block has a perfect matching, rows == stored weight vectors) is inductive on the real pick / prep_md_items / treat_output for every abstract state with N<=3 plus-ensembles, every random outcome and every accept/reject outcome; zero swaps only when [0-] and [0+] are idle; engine instances exclusive per worker (prep_md_items + assign_engines).",
+   note="Bounded in the number of ensembles (N<=3 quick, N=4 sampled thorough), complete over outcomes; prob's contract assumed from C02; assign_engines additionally by bounded exhaustive enumeration; worker-directory uniqueness argued from the pin.",
+   design="5/C03"),
+ "C04": dict(level="other", technique="contract-based verification of the scheduler state machine: representation invariant + per-operation postconditions checked on the REAL REPEX_state methods by path-complete symbolic execution (symnp) from every abstract state of a shape, using only the contract of prob (C02); z3 discharges the fractional-weight identities",
+   text="For every abstract state / finished job / outcome the real treat_output runs with SYMBOLIC probabilities constrained only by prob's contract: z3 proves one unit of weight per idle column, none to busy columns, credit only where idle and weight non-zero; rows archived exactly for the replaced paths iff ACC, never for a live path, and removed from traj_data; fresh path numbers; one restart write per step.",
+   note="Bounded in N (<=3); global conservation follows by induction over steps (argued); restart text round trip of frac not decided.",
+   design="5/C04"),
+ "C05": dict(level="other", technique="contract-based verification of the scheduler state machine: representation invariant + per-operation postconditions checked on the REAL REPEX_state methods by path-complete symbolic execution (symnp) from every abstract state of a shape, using only the contract of prob (C02); z3 discharges the fractional-weight identities",
+   text="'Idle block has a perfect matching' is part of the inductive invariant (so pick probabilities are finite with sum 1 and a candidate always exists); after every completed step idle paths have non-zero weight in their slot, live paths distinct, new numbers fresh; sort_trajstate terminated from every enumerated state (bounded evidence); workers <= ensembles-1 from check_config (E1).",
+   note="Bounded in N (<=3); termination of the re-sorting loop is bounded evidence only (20 s alarm), no ranking function.",
+   design="5/C05"),
+ "C07": dict(level="other", technique="contract-based verification of the scheduler state machine: representation invariant + per-operation postconditions checked on the REAL REPEX_state methods by path-complete symbolic execution (symnp) from every abstract state of a shape, using only the contract of prob (C02); z3 discharges the fractional-weight identities; plus AST call-site obligations and a native restart-path check on real numpy generators",
+   text="Under the SeedSequence model the k-th job gets child key (k,), ensembles (k,i), engines (k,i,0): checked on the real pick/prep_md_items for every abstract state and random outcome, on the real restart path (set_rgen/pick_lock, several workers) with numpy generators, and by call-site obligations for every in-process draw of every engine class. Two defects repaired (fix: 421ef4c, 4c0711b).",
+   note="SeedSequence model cross-checked against numpy each run; restart clause bounded grid; call-site obligation is syntactic data-flow.",
+   design="5/C07"),
 }
 NA = {
  "C01": "statistical convergence of an estimator over random histories; no pre/postcondition, invariant or lemma over function contracts expresses or decides it (DESIGN 5/C01). Its deterministic ingredients are decided under C02, C04, C09, C10.",
